@@ -17,6 +17,11 @@ CHECKS = {
          "trusted: the printer rules of DESIGN.md Appendix A"),
 }
 
+CHECKS["C06"] = ("exploration",
+         "The built binary is run as a subprocess on generated inputs (planted mistakes in random multi-line layout, token mutations, token soups, raw bytes) x shell x destination kind and judged by a validity predicate on exit status, stderr, stdout and the destination file; the same inputs go through the library pipeline and all emitters in-process at 20x the volume to catch panics.",
+         "4.C06", "generated inputs (seeded proptest choice streams: grammar-aware mutation + planted mistakes + soups + raw bytes) x validity-predicate oracle on the subprocess; in-process no-panic oracle",
+         "process creation is a serial resource on this box (~90 runs/s), so the subprocess part is ~1.5k runs in quick; cyclic definitions are pre-screened out of the in-process part and covered by the subprocess part; a supervisor process turns a harness crash into a verdict by re-judging the traced inputs with the binary")
+
 NOT_YET = {
 }
 
